@@ -323,14 +323,15 @@ def include_bytes_path_cases(asm, rep, rnd, tier):
             size = rnd.choice([1, 4, 9, 32])
             files = [os.path.join(src_dir, 'data.bin'), os.path.join(shared, 'data.bin'), os.path.join(shared, 'assets', 'x.bin'),
                      os.path.join(src_dir, 'sub', 'y.bin'), os.path.join(other, 'data.bin'), os.path.join(d, 'data.bin')]
-            if rnd.random() < 0.5:
+            # the including file's own directory may itself be an -i directory, first or last: the list is searched as given
+            dirs = rnd.choice([[], [inc1], [src_dir, inc1], [inc1, src_dir]])
+            if len(dirs) == 2 or rnd.random() < 0.5:
                 files += [os.path.join(inc1, 'data.bin'), os.path.join(inc1, 'sub', 'y.bin')]
             for k, f in enumerate(files):
                 open(f, 'wb').write(bytes([k * 16 + 1 + (j % 13) for j in range(size)]))
             name = rnd.choice(['assets/../data.bin', 'sub/../data.bin', './data.bin', 'assets/x.bin', 'sub/./y.bin', 'sub//y.bin',
                                '../shared/data.bin', '../data.bin', 'assets/../assets/x.bin', os.path.join(shared, 'data.bin'),
                                'assets/../../src/data.bin'])
-            dirs = rnd.choice([[], [inc1]])
             main = os.path.join(src_dir, 'main.asm')
             open(main, 'w').write('include_bytes %s\n' % name)
             exp = None
